@@ -122,11 +122,14 @@ def rule_fields(chk):
             okuu = v is not None and v[1] is not None and ("_identification" in unparse(v[1]) or isinstance(v[1], (ast.Name, ast.Subscript)))
             chk.req(okuu, "C02.fields", "%s:task_uuid" % q, where, good="%s certainly present (%s)" % (UU, v and unparse(v[1])[:50]),
                     fail="%s not certainly present after user fields at the write" % UU)
-            # task_level = self._nextTaskLevel().as_list()
+            # task_level = self._nextTaskLevel().as_list()  (possibly through a single-assignment local)
             v = pres.get(TL)
             oktl = False
             if v is not None and isinstance(v[1], ast.Call) and aslist in ctx.targets(f, v[1]):
                 inner = v[1].func.value if isinstance(v[1].func, ast.Attribute) else None
+                if isinstance(inner, ast.Name) and len(stores_to_name(f, inner.id)) == 1:
+                    vals = assigned_values(f, inner.id)
+                    inner = vals[0] if len(vals) == 1 else inner
                 oktl = isinstance(inner, ast.Call) and ntl in ctx.targets(f, inner)
             chk.req(oktl, "C02.fields", "%s:task_level" % q, where,
                     good="%s = <allocator>().as_list(), stored after user fields" % TL,
@@ -180,6 +183,38 @@ def rule_alloc(chk, prefix="C02"):
                 good="exactly one allocator call on every path %s" % what,
                 fail="allocator calls on paths %s range %s%s: a position is skipped (gap: parser never completes the action) or reused (duplicate level)"
                      % (what, rng, "" if mult_ok else " (conditional call)"), sites=len(cfg.live))
+        if wcalls and calls:
+            # nothing is emitted between taking the position and writing the message that carries it
+            impls = set(write_impls(chk))
+            memo = {}
+
+            def emits(g, depth=0):
+                if g in memo:
+                    return memo[g]
+                memo[g] = False
+                if g in impls:
+                    memo[g] = True
+                    return True
+                for s_ in ctx.cg.sites.get(g, []):
+                    for h in ctx.contain._callees(s_):
+                        if depth < 30 and emits(h, depth + 1):
+                            memo[g] = True
+                            return True
+                return memo[g]
+            anodes = [n for n, c, m in calls]
+            wnodes = [n for n, c, m in wcalls]
+            between = cfg.reach([s_ for a in anodes for s_, l in a.succ if l != "exc"], avoid=set(wnodes)) & {x for x in cfg.live if any(w_ in cfg.reach([x]) for w_ in wnodes)}
+            offenders = []
+            for x in between:
+                if x in anodes or x in wnodes:
+                    continue
+                for c_, m_ in calls_in_node(x):
+                    if any(emits(g) for g in ctx.targets(f, c_)) and not any(c_ is cc for _, cc, _m in calls):
+                        offenders.append((x, c_))
+            chk.req(not offenders, "%s.alloc" % prefix, "%s:nothing-emitted-between-allocation-and-write" % f.fq, chk.where(f),
+                    good="the position is taken immediately before the message is written",
+                    fail=lambda: "`%s` (line %d) can log messages after this message's position was taken and before it is written: they get higher positions although they are emitted first (e.g. an end message that is not the last position of its action)"
+                                 % (unparse(offenders[0][1])[:50], offenders[0][0].lineno), sites=len(between))
         if wcalls:
             # after the write no further allocation in the same call
             for n, c, m in wcalls:
